@@ -92,6 +92,8 @@ def raw_nlri(family, kind, i):
         else:
             body = _rd(i) + [64] + v6[:8]
         return [1] + be16(1) + [len(body)] + body
+    if family == LS and kind >= 5:
+        return ls_nlri(kind - 5, i)
     if family == LS:
         n = [0, 5, 30, 300, 5000][kind % 5]
         body = [(i + 3 * k) % 256 for k in range(n)]
@@ -99,6 +101,55 @@ def raw_nlri(family, kind, i):
             body[0] = 250    # unknown protocol id: keeps the NLRI opaque
         return be16(900 + kind) + be16(len(body)) + body
     raise ValueError(family)
+
+# ------------------------------------------------------------------ BGP-LS NLRI (RFC 9552 5.2, RFC 9086, RFC 9514 6)
+def _tlv(t, v): return be16(t) + be16(len(v)) + list(v)
+
+def ls_node_desc(container, i, shape):
+    """node descriptor container (256 local / 257 remote) with the sub-TLVs in the order the RFC lists them"""
+    b = []
+    if shape & 1: b += _tlv(512, be32(65000 + i))
+    if shape & 2: b += _tlv(513, be32(i))
+    if shape & 4: b += _tlv(514, be32(i % 7))
+    if shape & 8: b += _tlv(515, [(i + k) % 256 for k in range([4, 6, 7, 8][i % 4])])
+    if shape & 16: b += _tlv(516, [10, 0, (i >> 8) & 255, i & 255])
+    if shape & 32: b += _tlv(517, be32(64512 + i % 100))
+    return _tlv(container, b)
+
+def ls_nlri(kind, i):
+    """one BGP-LS NLRI in canonical form: kind 0 node, 1 link, 2 IPv4 prefix, 3 IPv6 prefix, 4 SRv6 SID; [i] varies the
+    descriptor TLVs present and their lengths"""
+    head = [1 + i % 7] + be32(0) + be32(i)
+    local = ls_node_desc(256, i, [1, 9, 15, 63, 8, 0][i % 6])
+    if kind == 0:
+        return be16(1) + be16(len(head + local)) + head + local
+    if kind == 1:
+        body = head + local + ls_node_desc(257, i + 1, [9, 63, 1][i % 3])
+        sel = [1, 2 | 4, 8 | 16, 1 | 32, 63, 0, 64][i % 7]
+        if sel & 1: body += _tlv(258, be32(i) + be32(i + 1))
+        if sel & 2: body += _tlv(259, [10, 0, 0, i % 256])
+        if sel & 4: body += _tlv(260, [10, 0, 1, i % 256])
+        if sel & 8: body += _tlv(261, [32, 1] + [0] * 13 + [i % 256])
+        if sel & 16: body += _tlv(262, [32, 1] + [0] * 13 + [(i + 1) % 256])
+        if sel & 32: body += _tlv(263, sum([be16((i + k) % 4096) for k in range(i % 3)], []))
+        if sel & 64: body += _tlv(9000 + i % 50, [(i + k) % 256 for k in range([0, 1, 255, 256][i % 4])])
+        return be16(2) + be16(len(body)) + body
+    if kind in (2, 3):
+        body = head + local
+        sel = [4, 1 | 4, 2 | 4, 7, 4 | 8][i % 5]
+        if sel & 1: body += _tlv(263, be16(i % 4096))
+        if sel & 2: body += _tlv(264, [1 + i % 6])
+        if sel & 4:
+            maxb = 32 if kind == 2 else 128
+            pl = [0, 1, 8, 24, maxb - 1, maxb][i % 6]
+            addr = ([10, 1, 2, 3] if kind == 2 else [32, 1, 13, 184] + [(i + k) % 256 for k in range(12)])[:(pl + 7) // 8]
+            body += _tlv(265, [pl] + addr)
+        if sel & 8: body += _tlv(9100, [i % 256])
+        return be16(3 if kind == 2 else 4) + be16(len(body)) + body
+    body = head + local
+    for k in range(1 + i % 2):
+        body += _tlv(518, be16((i + k) % 4096) + [0, 0] + [32, 1, 13, 184] + [(i + k + j) % 256 for j in range(12)])
+    return be16(6) + be16(len(body)) + body
 
 # ------------------------------------------------------------------ structural reader (Spec)
 class Bad(Exception):
